@@ -186,6 +186,9 @@ fn scenario_decls(shadow: bool, alias: bool) -> Vec<RDecl> {
     ];
     if alias {
         d.push(RDecl::Type { name: "B".into(), ty: tname("A") });
+    } else {
+        // a type nobody uses: it may stand anywhere, also as the last declaration
+        d.push(RDecl::Type { name: "Z".into(), ty: tname("int") });
     }
     // q calls itself (recursion) when nothing shadows it
     let mut q = proc_q();
@@ -241,7 +244,7 @@ pub fn typed_family(tier: Tier) -> Vec<Item> {
     for (shadow, alias) in [(false, false), (true, false), (false, true), (true, true)] {
         let decls = scenario_decls(shadow, alias);
         let perms = permutations(&decls);
-        let step = tier.pick(if alias { 6 } else { 1 }, 1);
+        let step = tier.pick(if alias { 6 } else { 5 }, 1);
         let mut k = 0;
         for p in perms {
             let prog = RProgram { decls: p };
